@@ -879,8 +879,8 @@ class IrcState(IrcCommandDispatcher, log.Firewalled):
         for item in items.split():
             if ircutils.isUserHostmask(item):
                 name = ircutils.nickFromHostmask(item)
-                strip = 1 if name[0] in '@%+&~!' else 0
-                self.nicksToHostmasks[name[strip:]] = item[strip:]
+                self.nicksToHostmasks[name.lstrip('@%+&~!')] = \
+                        item.lstrip('@%+&~!')
             else:
                 name = item
             c.addUser(name)
